@@ -166,10 +166,11 @@ func (e *Engine) NewHint(f solver.Hint, nbOutputs int, inputs ...frontend.Variab
 
 func (e *Engine) optRealHints() bool { return realHints }
 
-var realHints bool
+var realHints = true
 
-// SetRealHints forces every hint through the repository's own hint function
-// (no native fast path). Process-wide.
+// SetRealHints(true) (the default) sends every hint through the repository's own hint
+// function; SetRealHints(false) enables a native fast path for the four repository hints
+// and gnark's bit decomposition, used by the large must-reject sweeps. Process-wide.
 func SetRealHints(b bool) { realHints = b }
 
 func callHint(f solver.Hint, in, out []*big.Int) (msg string, ok bool) {
